@@ -54,8 +54,15 @@ THEOREMS = [
     "Scenic.ReplayStream.update_truncation_refused",
     "Scenic.ReplayStream.replay_reproduces",
     "Scenic.ReplayStream.simulate_replay_reproduces",
+    # round 4: stream / scene layer on the constants generated from the source (Gen/StreamCfg.lean)
+    "Scenic.C18.replay_header_roundtrip",
+    "Scenic.C18.replay_header_refuses_other_version",
+    "Scenic.C18.simulate_replay_reproduces",
+    "Scenic.C18.scene_roundtrip",
+    "Scenic.C18.scene_header_truncation_refused",
 ]
-SIDE = ["Scenic.C18.gen_table_wf", "Scenic.C18.gen_reads_checked", "Scenic.C18.gen_divergence_abs"]
+SIDE = ["Scenic.C18.gen_table_wf", "Scenic.C18.gen_reads_checked", "Scenic.C18.gen_divergence_abs",
+        "Scenic.C18.gen_stream_wf", "Scenic.C18.gen_stream_checked"]
 
 FINGERPRINTS = {
     "writeInt": ("src/scenic/core/serialization.py", "writeInt"),
@@ -88,6 +95,13 @@ FINGERPRINTS = {
     "_makeSceneFromSample": ("src/scenic/core/scenarios.py", "Scenario._makeSceneFromSample"),
     "CompileOptions": ("src/scenic/syntax/translator.py", "CompileOptions"),
     "deterministicHash": ("src/scenic/core/serialization.py", "deterministicHash"),
+    "sceneFormatVersion": ("src/scenic/core/serialization.py", "Serializer.sceneFormatVersion"),
+    "replayFormatVersion": ("src/scenic/core/serialization.py", "Serializer.replayFormatVersion"),
+    "writeScene": ("src/scenic/core/serialization.py", "Serializer.writeScene"),
+    "readScene": ("src/scenic/core/serialization.py", "Serializer.readScene"),
+    "writeReplayHeader": ("src/scenic/core/serialization.py", "Serializer.writeReplayHeader"),
+    "readReplayHeader": ("src/scenic/core/serialization.py", "Serializer.readReplayHeader"),
+    "ReplayMode": ("src/scenic/core/simulators.py", "ReplayMode"),
 }
 
 
@@ -767,6 +781,13 @@ def direct_scenes(ctx):
                         found = True
                     except SerializationError:
                         ctx.hist("header", f"other-{label}:refused")
+                va, vb = rng.choice([(1, 2), (0, 1), (2.5, 2.0), ("a", "b"), (1, -1)])
+                hrep = {"kind": "header", "what": "header-param-values", "program": code, "seed": seed, "va": va, "vb": vb}
+                bad, msg = header_check(hrep)
+                ctx.hist("header", "param-values:" + ("ACCEPTED" if bad else "refused"))
+                if bad:
+                    ctx.violation("header-other-options", msg, hrep)
+                    found = True
             except Exception as e:
                 ctx.hist("header", "skipped:" + type(e).__name__)
     return found
@@ -954,6 +975,174 @@ def direct_sims(ctx):
     return found
 
 
+
+# --------------------------------------------------------------------------- stream / scene headers (round 4)
+TRIVIAL = "ego = new Object at (1, 2, 0)\n"   # no random dependencies: the encoded scene is its 10-byte header
+
+
+def py_rhdr(S, data):
+    from scenic.core.simulators import ReplayMode
+    ser = S.Serializer(data)
+    try:
+        f = ser.readReplayHeader()
+        chk = 1 if ReplayMode.checkDivergence in ReplayMode(f) else 0
+        return f"ok {f} {chk} {hexs(ser.stream.read())}"
+    except S.SerializationError:
+        return "err"
+    except Exception as e:
+        return "crash:" + type(e).__name__
+
+
+def py_whdr(S, f):
+    ser = S.Serializer()
+    try:
+        ser.writeReplayHeader(f)
+        return hexs(ser.getBytes())
+    except Exception as e:
+        return "crash:" + type(e).__name__
+
+
+def header_flag_words(rng):
+    fs = [0, 1, 2, 3, 4, 255, 256, 257, 65535, 65536, 65537, 2 ** 24 - 1, 2 ** 24, 2 ** 31 - 1, 2 ** 31, 2 ** 31 + 1,
+          2 ** 32 - 2, 2 ** 32 - 1]
+    fs += [rng.getrandbits(32) for _ in range(12)] + [rng.getrandbits(8) for _ in range(6)]
+    return sorted(set(fs))
+
+
+def py_scene_dec(sc, data):
+    from scenic.core.serialization import SerializationError
+    try:
+        sc.sceneFromBytes(data)
+        return "ok"
+    except SerializationError:
+        return "err"
+    except Exception as e:
+        return "crash:" + type(e).__name__
+
+
+def corr_stream(ctx):
+    """(C) the replay-header and scene-header model on the generated constants vs the real Serializer:
+    header bytes for boundary flag words, reader on every prefix, other versions, corrupted version bytes,
+    random byte strings; the scene header of a real scenario without random dependencies (valid, every prefix,
+    every single-byte change of version / AST hash / options hash, extra suffix)."""
+    import scenic
+    S = real()
+    rng = ctx.rng
+    lines, py = [], []
+    datas = set()
+    for f in header_flag_words(rng):
+        lines.append(f"C18 whdr {f}")
+        w = py_whdr(S, f)
+        py.append(w)
+        if not w.startswith("crash"):
+            b = bytes.fromhex(w) if w != "-" else b""
+            datas.add(b)
+            datas.add(b + bytes(rng.getrandbits(8) for _ in range(rng.randint(1, 6))))
+            for k in range(len(b)):
+                datas.add(b[:k])
+            for v in (0, 1, 2, 3, 4, 255, 256, 258, 513, 65535):
+                datas.add(struct.pack("<H", v) + b[2:])
+    for _ in range(40):   # malformed stream
+        n = rng.choice([0, 1, 2, 3, 5, 6, 7, 12])
+        first = rng.choice([b"\x02\x00", b"\x02", b"\x03\x00", b""])
+        datas.add((first + bytes(rng.getrandbits(8) for _ in range(n)))[: max(n, len(first))])
+    for d in sorted(datas):
+        lines.append(f"C18 rhdr {hexs(d)}")
+        py.append(py_rhdr(S, d))
+        ctx.hist("replay_header_len", min(len(d), 7))
+    # scene header of a real scenario
+    seed_all(1)
+    sc = scenic.scenarioFromString(TRIVIAL)
+    scene, _ = sc.generate(maxIterations=50)
+    data = sc.sceneToBytes(scene)
+    ah, oh = sc.astHash, sc.compileOptions.hash
+    lines.append(f"C18 wscenehdr {hexs(ah)} {hexs(oh)}")
+    py.append("ok " + hexs(data))
+    variants = {data, data + b"\x00", data + b"xyz"}
+    for k in range(len(data)):
+        variants.add(data[:k])
+        for delta in (1, 0x80, 0xFF):
+            variants.add(data[:k] + bytes([data[k] ^ delta]) + data[k + 1:])
+    for d in sorted(variants):
+        lines.append(f"C18 rscenehdr {hexs(ah)} {hexs(oh)} {hexs(d)}")
+        py.append(py_scene_dec(sc, d))
+        ctx.hist("scene_header_len", min(len(d), 11))
+    lean = ctx.driver(lines)
+    bad = 0
+    for ln, a, b in zip(lines, lean, py):
+        ctx.case(ln, nontrivial=True)
+        if a != b:
+            bad += 1
+            if bad <= 5:
+                ctx.broken("correspondence", "stream/scene header model vs serialization.py",
+                           f"{ln}: lean={a[:120]} python={b[:120]}")
+    return False
+
+
+def header_check(rep):
+    """the property on the real code for one header input -> (violated?, message)"""
+    import scenic
+    S = real()
+    what = rep["what"]
+    if what == "replay-header-roundtrip":
+        f = rep["flags"]
+        w = py_whdr(S, f)
+        r = py_rhdr(S, bytes.fromhex(w) + b"\x2a") if not w.startswith("crash") else w
+        ok = r.startswith(f"ok {f} ") and r.endswith(" 2a")
+        return (not ok), f"readReplayHeader(writeReplayHeader({f}) + b'*') -> {r} (header bytes {w})"
+    if what == "replay-header-truncation":
+        w = bytes.fromhex(py_whdr(S, rep["flags"]))
+        r = py_rhdr(S, w[: rep["k"]])
+        return r != "err", f"replay header {w.hex()} cut to {rep['k']} bytes -> {r} (must be a SerializationError)"
+    if what == "scene-header-truncation":
+        seed_all(1)
+        sc = scenic.scenarioFromString(TRIVIAL)
+        scene, _ = sc.generate(maxIterations=50)
+        data = sc.sceneToBytes(scene)
+        r = py_scene_dec(sc, data[: rep["k"]])
+        return r != "err", f"scene {data.hex()} cut to {rep['k']} bytes -> {r} (must be a SerializationError)"
+    if what == "scene-header-roundtrip":
+        seed_all(1)
+        sc = scenic.scenarioFromString(TRIVIAL)
+        scene, _ = sc.generate(maxIterations=50)
+        r = py_scene_dec(sc, sc.sceneToBytes(scene))
+        return r != "ok", f"sceneFromBytes(sceneToBytes(scene)) of a scenario without random values -> {r}"
+    if what == "header-param-values":
+        seed_all(rep["seed"])
+        a = scenic.scenarioFromString(rep["program"], params={"zz_override": rep["va"]})
+        b = scenic.scenarioFromString(rep["program"], params={"zz_override": rep["vb"]})
+        scene, _ = a.generate(maxIterations=200)
+        r = py_scene_dec(b, a.sceneToBytes(scene))
+        return r != "err", (f"scene of the program compiled with param zz_override={rep['va']!r} decoded under "
+                            f"zz_override={rep['vb']!r} -> {r} (must be a SerializationError)")
+    return None, "unknown header check"
+
+
+def direct_headers(ctx):
+    """(S) on the real code, no model: replay header round trip for boundary flag words and refusal of every strict
+    prefix; scene header of a scenario without random values: round trip and refusal of every strict prefix."""
+    found = False
+    cases = []
+    for f in header_flag_words(ctx.rng):
+        cases.append({"kind": "header", "what": "replay-header-roundtrip", "flags": f})
+        for k in range(6):
+            cases.append({"kind": "header", "what": "replay-header-truncation", "flags": f, "k": k})
+    cases.append({"kind": "header", "what": "scene-header-roundtrip"})
+    for k in range(10):
+        cases.append({"kind": "header", "what": "scene-header-truncation", "k": k})
+    for rep in cases:
+        ctx.case(rep, nontrivial=True)
+        try:
+            bad, msg = header_check(rep)
+        except Exception as e:
+            bad, msg = True, f"{type(e).__name__}: {e}"
+        ctx.hist("header_direct", rep["what"] + (":FAIL" if bad else ":ok"))
+        if bad:
+            ctx.violation(rep["what"], msg, rep)
+            found = True
+            break
+    return found
+
 # --------------------------------------------------------------------------- main
 def run(ctx):
     ctx.rule = ("cases = codec operations (boundary-dense integers, byte strings, all strict prefixes, single-byte "
@@ -983,6 +1172,18 @@ def run(ctx):
         ctx.gen_restore("Divergence")
         ctx.escalated.append(f"translator tie lost (divergence): {e}")
         ctx.notes.append(f"translator tie lost for valuesHaveDiverged: {e}")
+    stream_ok = True
+    try:
+        from translate import streamcfg
+        cfg = streamcfg.extract()
+        ctx.gen("StreamCfg", streamcfg.to_lean(cfg))
+        stream_ok = all(cfg[k] for k in ("sceneHeaderChecked", "replayHeaderChecked", "flagFromHeader",
+                                         "flagIffDivergenceData"))
+    except TemplateMismatch as e:
+        ctx.gen_restore("StreamCfg")
+        stream_ok = False
+        ctx.escalated.append(f"translator tie lost (streamcfg): {e}")
+        ctx.notes.append(f"translator tie lost for the scene/replay headers and initializeReplay: {e}")
     pr = ctx.prove(THEOREMS, side_conditions=SIDE)
     if ctx.tier == "thorough" and pr.build_ok:
         ctx.leanchecker(["ScenicModel.Props.C18", "ScenicModel.Props.C18Int", "ScenicModel.Props.C18Replay",
@@ -992,6 +1193,10 @@ def run(ctx):
     if pr.build_ok:
         encs = corr_codecs(ctx, table)
         found |= corr_divergence(ctx)
+        try:
+            corr_stream(ctx)
+        except Exception as e:   # the real code crashed on a header input: direct_headers reports it concretely
+            ctx.broken("correspondence", "stream/scene header model vs serialization.py", f"{type(e).__name__}: {e}")
     else:
         S = real()
         for z in boundary_ints(ctx.rng, table, 300):
@@ -999,7 +1204,15 @@ def run(ctx):
             if r.startswith("ok "):
                 encs.append((z, bytes.fromhex(r[3:])))
     found |= direct_codecs(ctx, encs)
+    found |= direct_headers(ctx)
     found |= direct_values(ctx)
+    # the failing-input search goes first where the broken obligation points: a lost stream-layer side condition
+    # (replay header / initializeReplay) is searched in replayed simulations before the scene generators
+    if not found and not stream_ok:
+        found |= direct_sims(ctx)
+        if found:
+            ctx.resolve_brokens(found)
+            return
     # the run stops at the first concrete failing input: the remaining generators are skipped
     if not found:
         found |= direct_scenes(ctx)
@@ -1015,6 +1228,8 @@ def judge(rep):
     import scenic
     from scenic.core.serialization import SerializationError
     kind = rep.get("kind")
+    if kind == "header":
+        return header_check(rep)
     if kind == "int_roundtrip":
         z = int(rep["z"])
         st = io.BytesIO()
